@@ -27,9 +27,70 @@ def verdict(block, cs):
         return "rej"
 
 
+def own_checkpoints(ctx, res):
+    """a table of the harness's own making over a chain of its own making: nodes whose head lies below, at and beyond the
+    horizon are offered, at every checkpointed height, the block with the checkpoint's id and a competitor that is valid in
+    every other respect (built and mined on the real parent while no table was installed)"""
+    rng = ctx.rng
+    for si in range(ctx.scale(2, 8)):
+        chain.patch(horizon=-1)
+        keys = chain.Keys(rng, 3)
+        tree = chain.Tree(rng, keys)
+        n = rng.randrange(6, 10)
+        for _ in range(n):
+            tree.extend(n_tx=rng.choice([0, 0, 1]))
+        main = list(tree.blocks)                       # heights 0..n, linear
+        cps = sorted(rng.sample(range(1, n), rng.randrange(1, 4)))
+        comps = {h: tree.extend(main[h - 1].hash(), n_tx=0) for h in cps}
+        known = {0: human(main[0].hash())}
+        known.update({h: human(main[h].hash()) for h in cps})
+        horizon = max(known)
+        lines = chain.patch(horizon=horizon, known=known)
+        ops, impl = list(lines), ["ok"] * len(lines)
+        keys_marked = 0
+        for j in range(0, n + 1):
+            st = CoinState.empty()
+            name = "o%d_%d" % (si, j)
+            ops.append("new " + name)
+            impl.append("ok")
+            for b in main[:j + 1]:
+                st = st.add_block_no_validation(b)
+                ops.append("addnv %s %s %s" % (name, name, hx(b.serialize())))
+                impl.append("ok")
+            ops.extend(keys.oracle_lines(keys_marked))
+            impl.extend(["ok"] * (len(keys.oracle) - keys_marked))
+            keys_marked = len(keys.oracle)
+            for h in cps:
+                if h - 1 > j:
+                    continue
+                for kind, blk in (("checkpointed", main[h]), ("competitor", comps[h])):
+                    now = blk.timestamp + 200
+                    try:
+                        st.add_block(blk, now)
+                        v = "ok"
+                    except Exception:
+                        v = "rej"
+                    ops.append("add x %s %s %d" % (name, hx(blk.serialize()), now))
+                    impl.append(v)
+                    res.case(("own", si, j, h, kind))
+                    res.count("own_table:%s:head_%s_horizon" % (kind, "below" if j < horizon else "at_or_beyond"))
+                    info = {"scenario": si, "head_height": j, "height": h, "horizon": horizon, "table": known,
+                            "block": blk.serialize().hex(), "chain": [b.serialize().hex() for b in main[:j + 1]]}
+                    if kind == "competitor" and v == "ok":
+                        res.violations.append({**info, "kind": "a competing block at a checkpointed height (another id than the "
+                                               "table's) is accepted by a node whose head is at height %d" % j})
+                    if kind == "checkpointed" and v != "ok":
+                        res.violations.append({**info, "kind": "the block with the checkpoint's id is refused"})
+        model = ctx.driver.ask(ops)
+        model = [m.split(" ")[0] if m.startswith("rej") else m for m in model]
+        kit.compare(res, ops, impl, model)
+        chain.unpatch()
+
+
 def run(ctx):
     res = kit.Result()
     rng = ctx.rng
+    own_checkpoints(ctx, res)
     chain.unpatch()
     table = dict(cheating.KNOWN_HASHES)
     horizon = cheating.MAX_KNOWN_HASH_HEIGHT
@@ -153,6 +214,8 @@ def run(ctx):
     res.rule = ("all %d checkpointed heights of the real table × {the checkpoint's id, 4 wrong ids} through the real "
                 "validate_block_in_coinstate and the model's (same table loaded); heights around the horizon; genesis and "
                 "the %d recorded blocks: ids, re-encoding, full validation with the real scrypt and horizon disabled, and "
-                "the same blocks through the model with the scrypt values as oracle lines. Distinct non-trivial = "
+                "the same blocks through the model with the scrypt values as oracle lines; tables of the harness's own making over "
+                "chains of its own making: at every checkpointed height the checkpointed block and an otherwise valid "
+                "competitor offered to nodes with heads below, at and beyond the horizon. Distinct non-trivial = "
                 "(height, id) pairs and recorded blocks" % (len(table), len(blocks)))
     return res
